@@ -24,8 +24,8 @@ func (s propSpec) keeps(rule string) bool {
 
 func (s propSpec) keepsSite(rule, site string) bool {
 	for pre, subs := range s.Sites {
-		if !strings.HasPrefix(rule, pre) {
-			continue
+		if rule != pre && !(strings.HasPrefix(rule, pre) && rule[len(pre)] >= '0' && rule[len(pre)] <= '9') {
+			continue // "B" narrows B1, B2, ...; "E8" narrows E8 but not E8a
 		}
 		any := false
 		for _, sub := range subs {
